@@ -346,7 +346,9 @@ class FeArray(np.ndarray):
         _parent = getattr(np.ndarray, _name)
 
         def _reducer(self, *args, **kwargs):
-            res = _parent(self, *args, **kwargs)
+            # run numpy's own reduction on the plain view: std / var are written in Python and
+            # mix the array with intermediate means, which the FeArray rank rule would misalign
+            res = _parent(self.view(np.ndarray), *args, **kwargs)
             axis = kwargs.get("axis", args[0] if args else None)
             if _KeepsFeAxes(axis, self.ndim) and getattr(res, "ndim", 0) >= 2:
                 return res.view(FeArray)
